@@ -809,6 +809,10 @@ class Interp:
             return
         if isinstance(arr, Tup) and arr.kind == "dict":
             key = self.eval(target.slice, env)
+            for i, (k, _) in enumerate(arr.items):
+                if key_equal(k, key):
+                    arr.items[i] = (key, v)
+                    return
             arr.items.append((key, v))
             return
         if not isinstance(arr, Arr):
@@ -924,6 +928,16 @@ class Interp:
                     return alg.sym("%s.%s" % (m.name, name))
                 return val
             return v
+        # module-level containers: one object per abstract run (a solve in a fresh process)
+        if isinstance(node, (ast.Dict, ast.List, ast.Set)) and not (getattr(node, "keys", None) or getattr(node, "elts", None)):
+            st = self.__dict__.setdefault("modstate", {})
+            key = (m.name, name)
+            if key not in st:
+                st[key] = Tup([], "dict" if isinstance(node, ast.Dict) else "list") if not isinstance(node, ast.Set) else SetV([])
+            return st[key]
+        if isinstance(node, ast.Call) and (dotted_name(node.func) or "").split(".")[-1] in ("dict", "OrderedDict") and not node.args and not node.keywords:
+            st = self.__dict__.setdefault("modstate", {})
+            return st.setdefault((m.name, name), Tup([], "dict"))
         return Opaque("%s.%s" % (m.name, name))
 
     def resolve_dotted(self, dotted):
@@ -1160,13 +1174,15 @@ class Interp:
         if isinstance(b, Tup):
             if isinstance(a, str) or a is None:
                 if b.kind == "dict":
-                    return any(k == a for k, _ in b.items)
+                    return any(key_equal(k, a) for k, _ in b.items)
                 return any(x == a for x in b.items if isinstance(x, str) or x is None)
             if isinstance(a, Expr) and all(isinstance(x, Expr) for x in b.items):
                 if any(a.eq(x) for x in b.items):
                     return True
                 if a.as_const() is not None and all(x.as_const() is not None for x in b.items):
                     return False
+            if b.kind == "dict":
+                return any(key_equal(k, a) for k, _ in b.items)  # the abstract mapping is known completely
             return Member(a, id(b), "tuple", False)
         if isinstance(b, Arr) and isinstance(a, Expr):
             return Member(a, b.meta.get("ident", id(b)), b.name or "array", True, container=b)
@@ -1182,7 +1198,7 @@ class Interp:
             if base.kind == "dict":
                 key = self.eval(node.slice, env)
                 for k, v in reversed(base.items):
-                    if k == key or (isinstance(k, Expr) and isinstance(key, Expr) and k.eq(key)):
+                    if key_equal(k, key):
                         return v
                 return Unknown("dict key %r" % (key,))
             if isinstance(node.slice, ast.Slice):
@@ -1583,6 +1599,16 @@ alg.register_rebuild("Sum", sum_atom)
 def reset_state():
     alg.reset()
     del _SIGS[:]
+
+
+def key_equal(a, b):
+    if isinstance(a, Expr) and isinstance(b, Expr):
+        return a.eq(b)
+    if isinstance(a, Tup) and isinstance(b, Tup):
+        return len(a.items) == len(b.items) and all(key_equal(x, y) for x, y in zip(a.items, b.items))
+    if isinstance(a, (str, bool)) or a is None or isinstance(b, (str, bool)) or b is None:
+        return type(a) is type(b) and a == b
+    return a is b
 
 
 def _assigned_names(stmts):
